@@ -56,6 +56,11 @@ func (f *fileDecorator) fragment(node ast.Node) {
 	// For all nodes, we add decoration, token and string fragments
 	f.addNodeFragments(node)
 
+	// The files of a package share one fragment list: keep each file's comments inside that file
+	if pkg, ok := node.(*ast.Package); ok && f.Fset != nil {
+		f.separatePackageFiles(pkg)
+	}
+
 	// If we're decorating a *ast.Package or *ast.File, we add comment and newline fragments
 	if f.Fset != nil {
 		processFile := func(astf *ast.File) {
@@ -209,6 +214,27 @@ func (f *fileDecorator) fragment(node ast.Node) {
 		case *commentFragment:
 			frag.Indent = currentIndent
 		}
+	}
+}
+
+// separatePackageFiles keeps the comments of each file of a package inside that file. The Start
+// decoration of a file is moved to the file's base (it was placed wherever the file walked before
+// it, in map order, happened to end), and every file is closed by an end-of-file token, which the
+// searches in link stop at like at any other token. Without this, comments after the last token of
+// one file were attached to the next file of the package and comments before the package clause of a
+// file to the file before it.
+func (f *fileDecorator) separatePackageFiles(pkg *ast.Package) {
+	for _, file := range pkg.Files {
+		tokenf := f.Fset.File(file.Pos())
+		if tokenf == nil {
+			continue
+		}
+		for _, frag := range f.fragments {
+			if dec, ok := frag.(*decorationFragment); ok && dec.Node == file && dec.Name == "Start" {
+				dec.Pos = token.Pos(tokenf.Base())
+			}
+		}
+		f.fragments = append(f.fragments, &tokenFragment{Node: file, Token: token.EOF, Pos: token.Pos(tokenf.Base() + tokenf.Size())})
 	}
 }
 
